@@ -213,6 +213,55 @@ func oracleC20(p *Pair, env *Env, a [][]byte) *Failure {
 	if mayInstall && !changed {
 		return &Failure{What: "self-update did not install the newer verified release", Detail: detail}
 	}
+	// the Lean model of the decision (Crs.Updater.decideUpdate) on the same catalogue: row K11
+	{
+		verArg := func(tag string) string {
+			v, pre, okv := parseVer(tag)
+			if !okv {
+				return "none"
+			}
+			p := "0"
+			if pre != "" {
+				p = "1"
+			}
+			return fmt.Sprintf("%d.%d.%d.%s", v[0], v[1], v[2], p)
+		}
+		b2s := func(b bool) string {
+			if b {
+				return "1"
+			}
+			return "0"
+		}
+		margs := [][]byte{[]byte(verArg(sc.Running)), []byte(b2s(sc.ListFail == 0))}
+		var digests []string
+		var relArgs [][]byte
+		for _, g := range rels {
+			fs := []string{verArg(g.Tag), b2s(g.Draft), b2s(g.Prerelease)}
+			for _, as := range g.Assets {
+				fs = append(fs, as.Name, string(as.Bytes), b2s(as.Fail == 0))
+				digests = append(digests, string(as.Bytes), sha256hex(as.Bytes))
+			}
+			relArgs = append(relArgs, []byte(strings.Join(fs, "\x1f")))
+		}
+		margs = append(margs, []byte(strings.Join(digests, "\x1f")))
+		margs = append(margs, relArgs...)
+		mr := p.Model(Op{"updater.decide", margs}, env.timeout)
+		observed := "fail"
+		if changed {
+			observed = "install"
+		} else if exit == 0 {
+			observed = "uptodate"
+		}
+		// a corrupt archive passes the checksum (it is the published asset) and fails while unpacking: outside the decision model
+		corruptChosen := best != nil && best.rel.AssetKind == "corrupt-targz"
+		if mr.Status != "ok" || len(mr.Out) == 0 {
+			return &Failure{What: "harness: model driver failed on updater.decide", Detail: mr.String()}
+		}
+		modelSays := string(mr.Out[0])
+		if !corruptChosen && (modelSays != observed || (modelSays == "install" && !bytes.Equal(mr.Out[1], now))) {
+			return &Failure{What: "obligation: correspondence K11 — the model's decision differs from what the binary did", Detail: fmt.Sprintf("model %s, binary %s\n%s", mr.String(), observed, detail)}
+		}
+	}
 	// failures must be reported
 	upToDate := sc.ListFail == 0 && best != nil && !verLess(sc.Running, best.tag) && best.rel.Checksum != "missing"
 	if !changed && !upToDate && exit == 0 {
